@@ -690,8 +690,10 @@ class ModuleStub(Stub):
         parts = []
         if self.imports_stub.imports:
             parts.append(self.imports_stub.render())
+        # Generated classes can share a name (two functions with a parameter of
+        # the same name); order those by content, not by the order of the traces.
         for typed_dict_class_stub in sorted(
-            self.typed_dict_class_stubs, key=lambda s: s.name
+            self.typed_dict_class_stubs, key=lambda s: (s.name, s.render())
         ):
             parts.append(typed_dict_class_stub.render())
         for func_stub in sorted(self.function_stubs.values(), key=lambda s: s.name):
